@@ -368,6 +368,13 @@ class ConcE:
         import struct
         n = {'e': 2, 'f': 4, 'd': 8}[ch]
         def gen():
+            # one case in four is a boundary pattern: +-0, +-inf, largest / smallest normal, smallest subnormal, +-1
+            special = {'e': [0x0000, 0x8000, 0x7C00, 0xFC00, 0x7BFF, 0xFBFF, 0x0400, 0x0001, 0x3C00, 0xBC00],
+                       'f': [0x00000000, 0x80000000, 0x7F800000, 0xFF800000, 0x7F7FFFFF, 0xFF7FFFFF, 0x00800000, 0x00000001, 0x3F800000, 0xBF800000],
+                       'd': [0x0000000000000000, 0x8000000000000000, 0x7FF0000000000000, 0xFFF0000000000000, 0x7FEFFFFFFFFFFFFF, 0xFFEFFFFFFFFFFFFF,
+                             0x0010000000000000, 0x0000000000000001, 0x3FF0000000000000, 0xBFF0000000000000]}[ch]
+            if self.gen.r.random() < 0.25:
+                return self.gen.r.choice(special)
             while True:
                 bits = self.gen.r.getrandbits(8 * n)
                 v = struct.unpack('>' + ch, bits.to_bytes(n, 'big'))[0]
